@@ -14,18 +14,21 @@ SCHEMES = ["tdvp_vmf", "prop_and_compress_tdrk4", "tdvp_ps", "tdvp_ps2"]
 @st.composite
 def cases(draw, tier):
     big = tier == "thorough"
-    mode = draw(st.sampled_from(["exact", "exact", "exact", "poly", "conserve", "chain", "gs", "limit", "limit"]))
+    mode = draw(st.sampled_from(["exact", "exact", "exact", "poly", "conserve", "chain", "gs", "gs", "limit", "limit"]))
     tspec = draw(T.tree_specs(min_sites=2, max_sites=5 if big else 4, qn=draw(st.sampled_from([0, 1, 1, 2])), max_dim=64 if not big else 128,
                               max_nodes=6, small_sho=True, allow_single=False))
     if mode == "chain":
         tspec["topo"] = {"ctor": "linear"}
     terms = draw(gen.hermitian_hamiltonian(tspec["model"], max_terms=4, real_only=True))
+    sched = draw(st.lists(st.tuples(st.sampled_from([2, 4, 8, 64]), st.sampled_from([0, 0.2, 0.5])), min_size=1, max_size=4))
+    if mode == "gs" and draw(st.booleans()):
+        sched = list(sched) + [(64, 0)]  # last sweep untruncated and unperturbed: its energy is the energy of the returned state
     return {"mode": mode, "tree": tspec, "terms": terms, "q": draw(st.integers(0, 50)), "rng": draw(st.integers(0, 10 ** 6)),
             "scheme": draw(st.sampled_from(SCHEMES if mode != "limit" else SCHEMES + ["tdvp_ps2", "tdvp_ps2"])), "imag": draw(st.booleans()), "normalize": draw(st.booleans()),
             "hdt": draw(st.sampled_from([0.03, 0.05, 0.1, 0.2, 0.3, 0.5, 1.0, 2.0])), "nstep": draw(st.integers(1, 4)),
             "m0": draw(st.sampled_from([1, 2, 3])), "cplx": draw(st.booleans()), "coeff": draw(st.sampled_from([[1.0, 0.0], [0.6, 0.8], [2.0, 0.0]])),
             "ttno_algo": draw(st.sampled_from(["qr", "Hopcroft-Karp"])), "M": draw(st.integers(1, 4)),
-            "sched": draw(st.lists(st.tuples(st.sampled_from([2, 4, 8, 64]), st.sampled_from([0, 0.2, 0.5])), min_size=1, max_size=4)),
+            "sched": sched,
             "algo": draw(st.sampled_from(["davidson", "direct"]))}
 
 
@@ -217,7 +220,11 @@ class C12(Prop):
                 tol = 1e-4 * max(1.0, t) * nstep * nrm * amp
             else:
                 tol = 1.5e-5 * 6 * ctx.N * max(1.0, t) * nstep * nrm * amp
-                if ctx.N > 2 or any(len([s for s in n.sets if s is not None]) > 1 for n in ctx.nodes):
+                # no splitting error only for two single-basis nodes whose bond carries a COMPLETE basis of the smaller side (one-site
+                # scheme; see C09 ps_is_exact: with symmetry blocks the generic Schmidt rank can be smaller than that), or two-site scheme
+                two_exact = ctx.N == 2 and not any(len([s for s in n.sets if s is not None]) > 1 for n in ctx.nodes) and \
+                    (kind == "tdvp_ps2" or int(list(x.bond_dims)[1]) >= min(ctx.sub_dim(1), ctx.D // ctx.sub_dim(1)))
+                if not two_exact:
                     tol += 0.5 * nstep * t ** 3 * nrm * amp
             r.check_close(f"{mode}.{kind}.{'imag' if imag else 'real'}", got, ref, tol, f"{kind} t={t} x{nstep} normalize={case['normalize']} vs "
                           f"{'Taylor-4 replica' if mode == 'poly' else 'dense propagator'}")
